@@ -284,7 +284,12 @@ def shard(ctx):
             ctx.count('model_build_failed')
             continue
         spec = H.clean_spec(spec)
-        for t, v in gen_values(ctx, spec, m, 6):
+        # a quarter of the models: objects referenced more than once (dumped
+        # with anchors; a plain reader resolves the aliases)
+        share = 0.5 if rng.random() < 0.25 else 0.0
+        for t, v in gen_values(ctx, spec, m, 6, share=share):
+            if share:
+                ctx.count('values_from_sharing_generators')
             run_value(ctx, spec, v, t)
     # plain containers incl. OrderedDict
     spec0 = {'classes': [], 'doc_type': 'any'}
